@@ -309,8 +309,14 @@ Proof.
       * apply N.compare_eq_iff. lia.
       * apply N.compare_lt_iff. lia.
       * apply N.compare_gt_iff. lia.
-    + apply N.compare_lt_iff in C. symmetry. apply N.compare_lt_iff. subst va vb. nia.
-    + apply N.compare_gt_iff in C. symmetry. apply N.compare_gt_iff. subst va vb. nia.
+    + apply N.compare_lt_iff in C. symmetry. apply N.compare_lt_iff. subst va vb.
+      change (0 * 10 + (x - 48)) with (x - 48). change (0 * 10 + (y - 48)) with (y - 48).
+      assert (M : (x - 48 + 1) * T <= (y - 48) * T) by (apply N.mul_le_mono_r; lia).
+      rewrite N.mul_add_distr_r in M. lia.
+    + apply N.compare_gt_iff in C. symmetry. apply N.compare_gt_iff. subst va vb.
+      change (0 * 10 + (x - 48)) with (x - 48). change (0 * 10 + (y - 48)) with (y - 48).
+      assert (M : (y - 48 + 1) * T <= (x - 48) * T) by (apply N.mul_le_mono_r; lia).
+      rewrite N.mul_add_distr_r in M. lia.
 Qed.
 
 Lemma pad20_cmp a b : a < TEN20 -> b < TEN20 -> bytes_cmp (pad20 a) (pad20 b) = N.compare a b.
